@@ -1584,6 +1584,9 @@ class LLParser:
                     f"uknown token names specified in 'skip_tokens' "
                     f"arg: {unexpected}")
 
+        assert '__' not in start_symbol_name, (
+            f"Invalid start symbol '{start_symbol_name}'. Symbol names "
+            f"containing '__' are reserved")
         self.start_symbol_name = start_symbol_name
         orig_prods_map, self._seq_symbols, self.prod_templates = (
             self._create_productions(productions, self.terminals, self._summary))
@@ -2189,6 +2192,15 @@ class LLParser:
                     continue
 
                 assert isinstance(productions, list)
+                for production in productions:
+                    if isinstance(production, tuple):
+                        for prod_symbol in production:
+                            assert not (
+                                isinstance(prod_symbol, str) and '__' in prod_symbol
+                            ), (
+                                f"Invalid symbol '{prod_symbol}' in a production "
+                                f"of '{symbol}'. Symbol names containing '__' are "
+                                f"reserved")
                 yield symbol, productions
 
         for symbol, productions in _gen_prods_data():
